@@ -160,6 +160,7 @@ func runCorpus(roots []string, which string) {
 	}
 	results := make([]hlib.Result, len(files))
 	extras := make([][][2]string, len(files))
+	sigExtras := make([][]string, len(files))
 	hlib.Parallel(len(files), 8, func(i int) {
 		path := files[i]
 		res := hlib.Result{Idx: i, V: "ok", Input: map[string]any{"file": path}}
@@ -177,7 +178,9 @@ func runCorpus(roots []string, which string) {
 				res.V, res.Sig, res.Detail = "skip", "skip:"+o.Why, o.Detail
 			case "viol":
 				// domain check deferred to the sequential second phase
-				res.V, res.Sig, res.Detail = "viol", o.Sig, path+": "+o.Detail
+				sigs := explain(path, src, false, o)
+				res.V, res.Sig, res.Detail = "viol", sigs[0], path+": "+o.Detail+"\n  raw signature: "+o.Sig
+				sigExtras[i] = sigs[1:]
 			}
 			if o.GoTree != nil && res.V != "skip" {
 				set := map[string]bool{}
@@ -249,6 +252,13 @@ func runCorpus(roots []string, which string) {
 		hlib.Emit(r)
 		for _, m := range extras[i] {
 			hlib.Emit(hlib.Result{Idx: i, V: "viol", Sig: m[0], Detail: files[i] + ": " + m[1], Input: r.Input, NT: r.NT})
+		}
+		if r.V == "viol" {
+			for _, sig := range sigExtras[i] {
+				x := r
+				x.Sig = sig
+				hlib.Emit(x)
+			}
 		}
 	}
 }
